@@ -2,7 +2,7 @@
 //! C04, by fault enumeration over token streams and fallible actions.
 //! Oracle: prefix refinement against the fault-free history (DESIGN 3.2).
 
-use crate::rt::{hi, Ctx, Ev, Item, Outcome, Plan};
+use crate::rt::{hi, wrapped_outcome, Ctx, Ev, Item, Outcome, Plan};
 use crate::sample::Sampler;
 use crate::spec::{Spec, Variant};
 use crate::sut::Sut;
@@ -206,15 +206,18 @@ pub fn check_c17(w: &World, s: &dyn Sut, toks: &[usize], shape: u8, _rng: &mut R
     let start_pids: BTreeSet<u32> = spec.nts.iter().filter(|n| n.name == s.info().start).flat_map(|n| n.prods.iter().map(|p| p.id)).collect();
     let item = if var.builtin { "str" } else if shape == 1 { if var.loc == 2 { "result-noloc" } else { "result-triple" } } else { "plain" };
 
+    let default_loc: i64 = if var.builtin { 0 } else { match var.loc { 0 => 0, 1 => -777, _ => -1 } };
     let mut verify = |plan: Plan, cut: usize, fault_ev: Ev, id: u32, what: &str, where_: &str, st: &mut Stats| {
         let r = run_case(w, s, toks, shape, plan.clone(), None);
         st.faulted_parses += 1;
         st.digest ^= run_digest(s, toks, shape, &plan, None, &r);
         let mut expected: Vec<Ev> = base.log[..cut].to_vec();
+        let from_action = matches!(fault_ev, Ev::ActErr(..));
         expected.push(fault_ev);
-        let want = Outcome::User(id);
+        // a stream `Err(e)` becomes `User { error: e }`; an action returns whatever variant it built
+        let want = if from_action { wrapped_outcome(id, default_loc) } else { Outcome::User(id) };
         let ok = r.out.as_ref().ok() == Some(&want) && r.log == expected;
-        st.shapes.insert(format!("{}|{be}|{item}|{what}|{where_}|{base_kind}", var.module));
+        st.shapes.insert(format!("{}|{be}|{item}|{what}|{where_}|{base_kind}|{}", var.module, want.kind()));
         if !ok {
             let problem = match &r.out {
                 Err(_) => "panic",
